@@ -377,7 +377,12 @@ class XMIResource(Resource):
             self.reverse_nsmap[uri] = prefix
             return
         same_prefix = [x for x in self.prefixes.keys() if x.startswith(prefix)]
-        prefix = f'{prefix}_{len(same_prefix)}'
+        number = len(same_prefix)
+        # the new prefix must be a fresh one: a package may well declare a
+        # prefix that looks like a numbered one ('p_2' next to 'p')
+        while f'{prefix}_{number}' in self.prefixes:
+            number += 1
+        prefix = f'{prefix}_{number}'
         self.prefixes[prefix] = uri
         self.reverse_nsmap[uri] = prefix
 
